@@ -306,8 +306,10 @@ int filter_tee_header (struct filter *chain)
 		lerr (_("error closing output file %s"),
 			env.outfilename != NULL ? env.outfilename : "<stdout>");
 
-	while (wait (0) > 0) ;
-
+	/* The filters of the header branch are children of this process:
+	 * FLEX_EXIT() ends up in main(), which waits for them and turns a
+	 * failure of any of them into a failure status of this process.
+	 */
 	FLEX_EXIT (0);
 	return 0;
 }
